@@ -118,8 +118,8 @@ Proof.
 Qed.
 Theorem C11_trial_point_sites_from_source :
   LBFGSB.Generated.Base.projection_sites_src =
-  ["main: np.clip(x + steplength * d, lb, ub)"; "linesearch: np.clip(x0 + alpha * d, lb, ub)";
-   "linesearch: np.clip(x0 + steplength * d, lb, ub)"; "linesearch: np.clip(x0 + alpha * d, lb, ub)"]%string.
+  ["main: np.clip(x + _ * d, lb, ub)"; "linesearch: np.clip(x0 + _ * d, lb, ub)";
+   "linesearch: np.clip(x0 + _ * d, lb, ub)"; "linesearch: np.clip(x0 + _ * d, lb, ub)"]%string.
 Proof. reflexivity. Qed.
 
 (* the first trial step of the model IS the first-step rule of line_search, translated from its source on every run
